@@ -31,7 +31,8 @@ class A(Adapter):
 
     def configs(self):
         base = [cfg("r12c12", True, r=12, c=12, tl=None), cfg("r4c7", True, r=4, c=7, tl=None), cfg("r7c4", r=7, c=4, tl=None),
-                cfg("r3c3", r=3, c=3, tl=None)]
+                cfg("r3c3", r=3, c=3, tl=None),
+                cfg("r4c3", True, r=4, c=3, tl=None)]  # tiny board with a Hamiltonian cycle: filling the whole board is reachable
         return cross_tl(base, [1, 2, 3, 7])
 
     def build(self, c):
@@ -215,10 +216,37 @@ class A(Adapter):
                 best, best_a = len(seen), a
         return best_a
 
+    @staticmethod
+    def _hamiltonian_next(R: int, C: int, r: int, c: int):
+        """Successor of (r, c) on a fixed Hamiltonian cycle of an R x C board with R even: column 0 is the
+        return lane (upwards); rows are swept boustrophedon over columns 1..C-1."""
+        if C < 2 or R % 2:
+            return None
+        if c == 0:
+            return (r - 1, 0) if r > 0 else (0, 1)
+        if r % 2 == 0:  # sweeping right on even rows
+            return (r, c + 1) if c < C - 1 else (r + 1, c)
+        if c > 1:       # sweeping left on odd rows
+            return (r, c - 1)
+        return (r + 1, 1) if r < R - 1 else (r, 0)
+
     def policy_complete(self, s, env, rng, legal):
-        """Head for the fruit (greedy, legal moves only)."""
+        """Fill the whole board by following a Hamiltonian cycle where one exists (small boards), else head
+        for the fruit (greedy, legal moves only)."""
         if legal is None or not legal.any():
             return None
+        bs = np.asarray(s.body_state)
+        R, C = bs.shape
+        if R * C <= 64:
+            r, c = self._head(s)
+            nxt = self._hamiltonian_next(R, C, r, c)
+            if nxt is None and C % 2 == 0:  # transpose the construction when only the column count is even
+                t = self._hamiltonian_next(C, R, c, r)
+                nxt = None if t is None else (t[1], t[0])
+            if nxt is not None:
+                for a, (dr, dc) in enumerate(DELTA):
+                    if (r + dr, c + dc) == nxt and legal[a]:
+                        return a
         r, c = self._head(s)
         fr, fc = int(s.fruit_position.row), int(s.fruit_position.col)
         best, best_a = None, None
